@@ -560,6 +560,38 @@ func evaluate(srv *pvpeg.Server, pigeon, dir string, seed int64, i int, av pvpeg
 				break
 			}
 		}
+		if outFile != "" && outFile != "/dev/full" && len(src) > 40 {
+			// regeneration into the file that is already there: whatever it holds - the same parser, a parser of exactly
+			// the same size with other content, a shorter or a longer file - the command must leave the complete parser
+			// (round 18: a "skip the rewrite when nothing changed" path that wrote at the old end of a same-size file)
+			stale := append([]byte{}, src...)
+			switch mode := r.Intn(4); mode {
+			case 0: // same size, other content
+				copy(stale[len(stale)/2:], "/*stale*/")
+			case 1: // identical
+			case 2: // shorter
+				stale = stale[:len(stale)/3]
+			case 3: // longer
+				stale = append(stale, bytes.Repeat([]byte("// stale tail\n"), 50)...)
+			}
+			if err := os.WriteFile(outFile, stale, 0o644); err == nil {
+				ctx2, cancel2 := context.WithTimeout(context.Background(), 3*timeout)
+				cmd2 := exec.CommandContext(ctx2, pigeon, args...)
+				cmd2.Env = append(os.Environ(), "PIGEON_VERIF_ASTDUMP=")
+				cmd2.Dir = dir
+				if stdin {
+					cmd2.Stdin = strings.NewReader(it.text)
+				}
+				err2 := cmd2.Run()
+				cancel2()
+				again, _ := os.ReadFile(outFile)
+				if err2 != nil {
+					fail("bad-output", "generating a second time into the existing -o file fails: "+err2.Error())
+				} else if !bytes.Equal(again, src) {
+					fail("bad-output", fmt.Sprintf("exit 0 but the -o file does not hold the parser after generating into an existing file (%d bytes before, %d bytes expected, %d bytes found)", len(stale), len(src), len(again)))
+				}
+			}
+		}
 		if _, err := parser.ParseFile(token.NewFileSet(), "out.go", src, parser.AllErrors|parser.SkipObjectResolution); err != nil {
 			// a grammar without an init block has no package clause (doc.go
 			// says so): then the output must parse as the rest of a file
